@@ -110,6 +110,17 @@ CHECKS["C18"] = dict(
     technique="Coq proof over Q/Z model + in-Coq correspondence with compute_keypoints",
     design="7/C18")
 
+CHECKS["C04"] = dict(
+    text=("Theorems (Props/C04.v) about the Gallina model of pwl_calibration_lib.project_all_constraints, per unit, "
+          "every positive spacing, every iteration count: heights have the configured sign exactly, keypoint outputs "
+          "within bounds (guard: not monotone+convex, known finding D2 with refuted witness), convexity of slopes, "
+          "clamped ends hit exactly for >= 1 iteration (Dykstra invariant proved; D3 refuted witness for 0 "
+          "iterations), missing output clipped, feasible kernels unchanged, per-unit. Model compared in Coq with "
+          "PWLCalibrationConstraints / layer.kernel.constraint on every run."),
+    note="Model: Model/PWLProject.v. Open known findings D2, D3 in known_findings.json.",
+    technique="Coq proof (Dykstra invariants) over Q model + in-Coq correspondence",
+    design="7/C04")
+
 NOT_YET = {}
 
 
